@@ -67,8 +67,8 @@ def run_case(case):
         crafted_note = None
         # who generates the key: the login / host name lookups may fail or return nothing (cron, containers); each falls back to 'unknown' on its own
         import socket as _socket
-        login = rng.choice(["natural", "alice", "raise", "empty"])
-        host = rng.choice(["natural", "build-host", "empty"])
+        login = rng.choice(["natural", "alice", "raise", "empty", "j\u00fcrgen", "\u674e\u96f7"])
+        host = rng.choice(["natural", "build-host", "empty", "werkst\u00e4tte"])
         orig_getlogin, orig_gethostname = os.getlogin, _socket.gethostname
         if login != "natural":
             def _getlogin():
@@ -186,7 +186,7 @@ def _run_with_identity(case, rng, tmp, path, viol, stats, exp_user, exp_host):
                 viol.append({"mechanism": "blob", "detail": "rr field is not 2^4096 mod n"})
         if sep != b" " or b"@" not in comment or not comment.strip() or comment != comment.strip(b"\n") or b" " in comment:
             viol.append({"mechanism": "blob", "detail": "public key file does not end with a ' user@host' comment: %r" % pub[-40:]})
-        elif comment != (exp_user + "@" + exp_host).encode():
+        elif comment != (exp_user + "@" + exp_host).encode("utf-8"):
             viol.append({"mechanism": "comment", "detail": "public key comment is %r, expected %r (login name / host name, each falling back to 'unknown' on its own)" % (comment, exp_user + "@" + exp_host)})
         stats["comments_checked"] = stats.get("comments_checked", 0) + 1
         # ---- signers
